@@ -34,6 +34,8 @@ class C19(F.Check):
         "(`x op R{0}`) are lowered by the same compiler in the same TU",
         "quantifier over stored values is solver-decided and complete (every bit pattern incl. NaN payloads, infinities, -0.0; "
         "x87 long double as (_ FloatingPoint 15 64), pseudo-denormals outside)",
+        "SMT-LIB floating point has a single NaN: where a kernel and its reference are not structurally identical, results of "
+        "floating-point arithmetic are compared bit-for-bit except that two NaN results count as equal",
         "quantifier over units is enumerated (library + generated compound units), reps: the 11 arithmetic reps; chrono "
         "durations: an enumerated list of Rep/Period pairs",
         "'q + ZERO == q' is read at value level: Au's own operator== on the results is true for every non-NaN q (for NaN it is "
@@ -77,7 +79,8 @@ class C19(F.Check):
                 raw_seen.add(rw)
                 add(F.Kernel(rw, ret, args, raw_body, key={"rep": ct, "op": fam}, family="raw_" + fam))
                 self.raws.append((fam, ct, rw))
-            self.pairs.append(("%s:%s_%s" % (fam, rtag(ct), ut), au, rw, args, key, F.ct_is_float(ct)))
+            nan_ct = ret if F.ct_is_float(ret) else None     # FP arithmetic result: see C13.ub_equiv_post
+            self.pairs.append(("%s:%s_%s" % (fam, rtag(ct), ut), au, rw, args, key, F.ct_is_float(ct), nan_ct))
 
         def value(fam, ct, ut, ret, body, kind, nargs=1):
             key = {"rep": ct, "unit": ut, "op": fam}
@@ -165,15 +168,15 @@ class C19(F.Check):
             ob = F.Ob("skip:" + obname, [], None, key=key)
             ob.status = "skipped-domain"
             obs.append(ob)
-        for obname, au, rw, args, key, fp in self.pairs:
+        for obname, au, rw, args, key, fp, nan_ct in self.pairs:
             if au not in K or rw not in K:
                 continue
             if K[au].kernel.dropped or K[rw].kernel.dropped:
                 skip(obname, key, au if K[au].kernel.dropped else rw)
                 continue
 
-            def fn(K, x, au=au, rw=rw):
-                return T.TRUE, ub_equiv_post(K[au](x), K[rw](x))
+            def fn(K, x, au=au, rw=rw, nan_ct=nan_ct):
+                return T.TRUE, ub_equiv_post(K[au](x), K[rw](x), nan_ct)
             obs.append(F.Ob(obname, [("x", F.ct_sort(args[0][0]))], fn, routes=F.FP_ROUTES if fp else F.CMP_ROUTES, key=key,
                             kernels=[au, rw], note="expression with ZERO == same expression with R{0} on the bare rep: same trap condition, same result bits"))
         # the raw comparison references mean "x op 0" (exact integer / IEEE semantics), independent of any Au code
